@@ -756,15 +756,18 @@ theorem convAt_of_ge (a b : Array Int) (u : ℕ) (h : a.size + b.size - 1 ≤ u)
   rw [if_neg (by omega)]
 
 /-- `fft_inv` applied to the transform of an integer sequence `c` of length `2^m`: the sequence itself. -/
-theorem fftInvIntoRef_exact (m : ℕ) (c : ℕ → ℤ) (v : Array ℂ) (hv : v.size = 2^m)
-    (hval : ∀ p, p < 2^m → rdA arithC v p = dft (zeta m) (2^m) (fun u => ((c u : ℤ) : ℂ)) p) :
-    fftInvIntoRef arithC v (List.replicate v.size 0) = (List.range (2^m)).map c := by
+theorem addPrefix_zeros_self : ∀ (l : List Int), addPrefix (List.replicate l.length 0) l = l := by
+  intro l
+  induction l with
+  | nil => rfl
+  | cons x l ih => rw [List.length_cons, List.replicate_succ, addPrefix, ih]; simp
+
+/-- `fft_inv_into` applied to the transform of an integer sequence `c` of length `2^m` ADDS that sequence to the
+    destination on the common prefix and leaves the rest of the destination alone (any destination length). -/
+theorem fftInvIntoRef_exact_into (m : ℕ) (c : ℕ → ℤ) (v : Array ℂ) (hv : v.size = 2^m)
+    (hval : ∀ p, p < 2^m → rdA arithC v p = dft (zeta m) (2^m) (fun u => ((c u : ℤ) : ℂ)) p) (res : List Int) :
+    fftInvIntoRef arithC v res = addPrefix res ((List.range (2^m)).map c) := by
   unfold fftInvIntoRef
-  have z : ∀ (l : List Int), addPrefix (List.replicate l.length 0) l = l := by
-    intro l
-    induction l with
-    | nil => rfl
-    | cons x l ih => rw [List.length_cons, List.replicate_succ, addPrefix, ih]; simp
   by_cases h1 : v.size = 1
   · rw [if_pos h1]
     have hm : m = 0 := by
@@ -772,12 +775,15 @@ theorem fftInvIntoRef_exact (m : ℕ) (c : ℕ → ℤ) (v : Array ℂ) (hv : v.
       | zero => rfl
       | succ m => rw [hv, Nat.pow_succ] at h1; have := Nat.two_pow_pos m; omega
     subst hm
-    rw [h1]
     have : rdA arithC v 0 = ((c 0 : ℤ) : ℂ) := by
       rw [hval 0 (by norm_num)]; simp [dft]
     unfold rdA at this
-    simp only [List.replicate, this]
-    simp [arithC]
+    rw [this]
+    cases res with
+    | nil => rfl
+    | cons r rs =>
+      simp only [pow_zero, List.range_one, List.map_cons, List.map_nil, addPrefix, addPrefix_nil]
+      simp [arithC]
   · rw [if_neg h1]
     have hm : 1 ≤ m := by
       cases m with
@@ -812,9 +818,14 @@ theorem fftInvIntoRef_exact (m : ℕ) (c : ℕ → ℤ) (v : Array ℂ) (hv : v.
           (fun p hp => by rw [x2 p hp, hG p hp]) q]
       exact dft_inversion (m-1) _ q hq
     rw [roundPairs_exact _ c hq, i1, hn2]
-    have := z ((List.range (2^m)).map c)
-    simp only [List.length_map, List.length_range] at this
-    exact this
+
+theorem fftInvIntoRef_exact (m : ℕ) (c : ℕ → ℤ) (v : Array ℂ) (hv : v.size = 2^m)
+    (hval : ∀ p, p < 2^m → rdA arithC v p = dft (zeta m) (2^m) (fun u => ((c u : ℤ) : ℂ)) p) :
+    fftInvIntoRef arithC v (List.replicate v.size 0) = (List.range (2^m)).map c := by
+  rw [fftInvIntoRef_exact_into m c v hv hval, hv]
+  have := addPrefix_zeros_self ((List.range (2^m)).map c)
+  simp only [List.length_map, List.length_range] at this
+  exact this
 
 
 theorem fftIntoRef?_zero_exact (v : Array Int) (m : ℕ) (hv : v.size ≤ 2^m) :
@@ -845,6 +856,22 @@ theorem fftMulInvRef?_exact (a b : Array Int) (m : ℕ) (ha : a.size ≠ 0) (hb 
     exact dft_convAt (zeta m) (2^m) a b ha hb hlen p)
   rw [p1] at this
   rw [this]
+
+theorem fftMulInvIntoRef?_exact (a b : Array Int) (m : ℕ) (ha : a.size ≠ 0) (hb : b.size ≠ 0)
+    (hlen : a.size + b.size - 1 ≤ 2^m) (res : List Int) :
+    fftMulInvIntoRef? arithC a b (2^m) res = .ok (addPrefix res ((List.range (2^m)).map (convAt a b))) := by
+  unfold fftMulInvIntoRef?
+  rw [fftIntoRef?_zero_exact a m (by omega), fftIntoRef?_zero_exact b m (by omega)]
+  simp only []
+  obtain ⟨a1, a2⟩ := fftIntoRef_zero_exact a m
+  obtain ⟨b1, b2⟩ := fftIntoRef_zero_exact b m
+  obtain ⟨p1, p2⟩ := pointwise_spec _ _ (2^m) a1 b1
+  unfold fftInvIntoRef?
+  rw [p1, isPow2_two_pow]
+  simp only [Bool.not_true, Bool.false_eq_true, if_false]
+  rw [fftInvIntoRef_exact_into m (convAt a b) _ p1 (fun p hp => by
+    rw [p2 p hp, a2 p hp, b2 p hp]
+    exact dft_convAt (zeta m) (2^m) a b ha hb hlen p)]
 
 theorem range_map_convAt (a b : Array Int) (n : ℕ) (ha : a.size ≠ 0) (hb : b.size ≠ 0) (hlen : a.size + b.size - 1 ≤ n) :
     (List.range n).map (convAt a b) = convSpec a b ++ List.replicate (n - (a.size + b.size - 1)) 0 := by
